@@ -204,7 +204,7 @@ func (el EntityList) KeysByIdUsage(id uint64, requiredUsage byte) (keys []Key) {
 			continue
 		}
 
-		if key.SelfSignature.RevocationReason != nil {
+		if key.SelfSignature.SigType == packet.SigTypeSubkeyRevocation || key.SelfSignature.RevocationReason != nil {
 			continue
 		}
 
